@@ -80,7 +80,7 @@ CHECKS.update({
              "real Votor (hooks) and comparing the broadcast votes/certificates (incl. signer index) and the per-slot state. "
              "MC_Node.tla composes Pool.tla and Votor.tla as consensus.rs wires them (FIFO event channels, own votes looped back "
              "through the network with arbitrary delay): there the rules hold without assumptions about the pool, own votes are "
-             "never refused by the own pool, and the real PoolImpl + Votor pair is replayed against it. Code -> spec on real executions: every pool call and Votor step of every correct node of simulated networks (Byzantine equivocation / noise, loss, crashes, harness-triggered standstill recovery) is validated by TLC as a transition of Pool.tla / Votor.tla (Trace_Node.tla); mismatches in this property's observable are reported here. The voting rules are also evaluated on everything each node broadcast in those executions.",
+             "never refused by the own pool, and the real PoolImpl + Votor pair is replayed against it. Code -> spec on real executions: every pool call and Votor step of every correct node of simulated networks (Byzantine equivocation / noise, loss, crashes, harness-triggered standstill recovery) is validated by TLC as a transition of Pool.tla / Votor.tla (Trace_Node.tla); mismatches in this property's observable are reported here. The voting rules are also evaluated on everything each node broadcast in those executions. A third Votor universe starts behind a prefix of announced blocks (own notar votes in slots 1..3) and explores the window boundary: the next window's first block before / without ParentReady.",
         note="pool guarantees towards Votor are assumed in MC_Votor (established by C06) and dropped in MC_Node; " + TB,
         technique="TLA+ spec of Votor + TLC exhaustive BFS (bounded event count) + spec->code transition replay",
         design="4 C05"),
@@ -126,7 +126,7 @@ CHECKS.update({
              "AlpenglowAbs (Trace_Progress.tla) and, at the end of the trace, TLC evaluates the progress goal on the windows "
              "that started after stabilisation: every slot of a correct live leader's window finalized at every correct live "
              "node and not skip-certified, by a fast-finalization certificate when >= 80% of the stake is responsive; windows of "
-             "crashed / silent leaders skip-certified; highest finalized slot keeps up. An execution with an equivocating leader is judged as well (correct leaders behind it must still be finalized); every node step is validated against Pool.tla / Votor.tla (Trace_Node.tla); timer arming is compared in the Votor replay. Producer.tla replay: a correct leader's slices close and its block completes at the specified step with the READY parent as effective parent, whenever ParentReady arrives relative to slice production.",
+             "crashed / silent leaders skip-certified; highest finalized slot keeps up. An execution with an equivocating leader is judged as well (correct leaders behind it must still be finalized); every node step is validated against Pool.tla / Votor.tla (Trace_Node.tla); timer arming is compared in the Votor replay. Producer.tla replay: a correct leader's slices close and its block completes at the specified step with the READY parent as effective parent, whenever ParentReady arrives relative to slice production. VotorTimers.tla: the timeout schedule of a window (crashed-leader timeout, then one per slot, one block time apart; rule = accumulated sleeps) against the instants at which the real timers fire on the paused clock (durations read off the code). The pool safe-to-* model is replayed for missing events; one execution has a validator with most of the stake (its own Rotor relay).",
         note="virtual time with the real timeout constants; the adequacy of the constants on a real network is not decided; "
              "sampled schedules (seeds), not all of them; a vacuity guard requires judged windows",
         technique="TLC exhaustive BFS of the abstract protocol with leaders (progress as terminal-state property); code->spec trace validation (Trace_Progress.tla) of simulated multi-node executions",
